@@ -372,6 +372,12 @@ Definition isrc_from_str (s : list N) : option (list N) :=
   match s4 with [] => Some isrc | _ => None end
   end end end end.
 
+(* what ISRCString::from_str guarantees of the string it stores: 12 characters,
+   2 letters, 3 alphanumerics, 7 digits *)
+Definition wf_isrc (s : list N) : Prop :=
+  lenN s = 12 /\ forallb is_alpha (firstn 2 s) = true /\ forallb is_alnum (firstn 3 (skipn 2 s)) = true /\
+  forallb is_digit (skipn 5 s) = true.
+
 (* cuesheet.rs:305-318 *)
 Definition read_isrc : parser isrc :=
   bs <~ take 12 ;;
